@@ -6,7 +6,9 @@
 //   full   ALL 256^L contents of one length L (--len 3 | 4) with the dimensions given on the command line
 //   guard  keys that end / start exactly at an inaccessible page, executed in a forked child (over-read == SIGSEGV)
 //   fs     std::hash<xbasic_fixed_string>: equal strings hash equally across storage layouts, capacities and histories
-//   --one / --guard-one / --fs-one : replay of a single case
+//   long   every length lmin..lmax x every offset 0..15 x 4 patterns (with --band 1: a band of lengths around a power of two)
+//   huge   lengths 2^k + d around the limits of the 32-bit integer types (k = 31, 32) in a sparse anonymous mapping, forked child
+//   --one / --guard-one / --fs-one / --long-one / --huge-one : replay of a single case
 #include <xtl/xhash.hpp>
 #include <xtl/xbasic_fixed_string.hpp>
 
@@ -24,11 +26,14 @@ namespace xtl { namespace detail {
 } }
 
 #include <algorithm>
+#include <cerrno>
+#include <csignal>
 #include <cstdint>
 #include <cstdio>
 #include <cstdlib>
 #include <cstring>
 #include <string>
+#include <utility>
 #include <vector>
 
 #include <sys/mman.h>
@@ -724,7 +729,7 @@ static void long_one(int fn, uint64_t seed, int align, int kind, std::size_t L, 
     g_long_kind = -1;
 }
 
-static void part_long(std::size_t lmin, std::size_t lmax, std::size_t lmain, int naligns, bool wide, int shard, int nshard)
+static void part_long(std::size_t lmin, std::size_t lmax, std::size_t lmain, int naligns, bool wide, int shard, int nshard, bool band)
 {
     std::vector<uint64_t> seeds[NFN];
     for (int fn = 0; fn < NFN; ++fn)
@@ -787,11 +792,384 @@ static void part_long(std::size_t lmin, std::size_t lmax, std::size_t lmain, int
         for (Block& b : blocks) free_block(b);
         ++lengths;
     }
+    if (band)
+    {
+        // a band of lengths around a power of two (limits of narrower integer types / chunk sizes), far above the contiguous range
+        vf::stat("boundary_band_lengths", lengths);
+        if (!stopped) { vf::stat("boundary_band_shards_completed", 1); vf::smax("boundary_band_max_length_completed", (long long)lmax); }
+        if (shard == 0 && lmax >= 65536 && lmax < 65536 + 64)
+            vf::sample("length band: hash_bytes / murmur2_x86 / murmur2_x64 of the 4 LONG patterns of EVERY length " + num((long long)lmin) + ".." + num((long long)lmax) +
+                       " (2^16-8 .. 2^16+16) at offsets 0.." + num(naligns - 1) + " of a 16-aligned exact-size malloc block -> one value each == reference", 12);
+        return;
+    }
     vf::stat("long_lengths", lengths);
     if (!stopped) vf::smax("long_max_length_completed", (long long)lmax);
     if (shard == 0)
         vf::sample("long grid: hash_bytes / murmur2_x86 / murmur2_x64 (key = 32-bit word counter pattern, length " + num((long long)lmax) + ", seed 0xc70f6907) at offsets 0.." +
                    num(naligns - 1) + " of a 16-aligned exact-size malloc block -> one value each == reference", 12);
+}
+
+// ------------------------------------------------------------------------------------------------ part: huge (lengths around 2^31 and 2^32)
+// "for every input" includes keys whose length does not fit in a 32-bit (or signed 32-bit) integer: length arithmetic that is
+// narrower than std::size_t anywhere in a 64-bit hash (block-end mask, block count, tail offset, loop counter, the length mixed
+// into the seed) is invisible below 2^31 / 2^32.  Lengths 2^k + d, k in {31, 32}, are hashed in an anonymous MAP_NORESERVE mapping:
+// untouched pages read as the shared zero page, so a key of 4 GiB costs page tables (8 MiB) and a few dozen resident pages.
+// The key is SPARSE: bytes inside 96-byte windows around offsets 0, 2^12 .. 2^33, L/2+17 and L are huge_byte(i), everything else
+// is 00 (a run of n zero blocks still multiplies the state by M^n, so skipped / repeated blocks change the value).
+// Placements: 'G' the key's last byte is the last byte before an inaccessible page (over-read == SIGSEGV; the start address is
+// then fixed by the length: address % 8 == (-L) % 8), 64 bytes FF in front of it; 'A<a>' the key starts at offset a of the first
+// page behind an inaccessible page (a == 0: a read in front of the key faults), a bytes FF in front, 64 bytes FF behind it.
+// All calls run in a forked child (a fault is attributed to the case that was executing and the sweep resumes behind it); the
+// reference is computed by the parent on a PRIVATE second mapping with the same content at offset 0.
+// murmur2_x86: reference MurmurHash2 takes an `int` length, so it has no value for lengths >= 2^31; there the function is only
+// required to return ONE value in every placement and to stay inside the key (it narrows the length to 32 bit on this tree).
+static inline uint8_t huge_byte(uint64_t i) { return uint8_t(((i + 1) * 0x9E3779B97F4A7C15ull) >> 56); }
+static const char* const HUGE_CONTENT = "sparse key: byte i = top byte of (i+1)*0x9E3779B97F4A7C15 inside the windows [c-48, c+48) for c in {0, 2^12, 2^13, .., 2^33, L/2+17, L}, 00 elsewhere";
+
+typedef std::vector<std::pair<uint64_t, uint64_t> > HWindows;
+static HWindows huge_windows(uint64_t L)
+{
+    HWindows w;
+    auto add = [&](uint64_t c) {
+        uint64_t b = c > 48 ? c - 48 : 0, e = std::min<uint64_t>(c + 48, L);
+        if (b < e) w.push_back(std::make_pair(b, e));
+    };
+    add(0);
+    for (int j = 12; j <= 33; ++j) add(1ull << j);
+    add(L / 2 + 17);
+    add(L);
+    return w;   // windows may overlap: the byte is a function of its index only
+}
+static void huge_write(unsigned char* key, uint64_t L, bool content)
+{
+    for (const auto& r : huge_windows(L))
+        for (uint64_t i = r.first; i < r.second; ++i) key[i] = content ? huge_byte(i) : 0;
+}
+
+struct HCase
+{
+    int fn;
+    uint64_t L;
+    int k;           // the power of two the length belongs to (signature class)
+    int pl;          // -1: 'G' key ends at an inaccessible page; 0..15: 'A<a>' key at offset a behind an inaccessible page
+    uint64_t seed;
+};
+struct HShared
+{
+    volatile long idx;
+    volatile long stopped;
+    volatile uint64_t res[1];
+};
+static std::string hpl_name(int pl) { return pl < 0 ? std::string("G") : "A" + num(pl); }
+static std::string hlen_text(uint64_t L, int k)
+{
+    long long d = (long long)(L - (1ull << k));
+    return num((long long)L) + " (= 2^" + num(k) + (d < 0 ? "" : "+") + num(d) + ")";
+}
+static std::string hwhere(const HCase& c)
+{
+    if (c.pl < 0)
+        return "last key byte = last byte before an inaccessible page (key address % 8 == " + num((long long)((0 - c.L) % 8)) + "), 64 bytes 0xFF in front of the key";
+    return "key at offset " + num(c.pl) + " of the first page behind an inaccessible page (key address % 8 == " + num(c.pl % 8) + "), " + num(c.pl) +
+           " bytes 0xFF in front of it and 64 bytes 0xFF behind it";
+}
+static std::vector<std::string> hreplay(const HCase& c) { return {"--huge-one", FN_NAME[c.fn], h64(c.seed), hpl_name(c.pl), num((long long)c.L)}; }
+static bool huge_has_ref(const HCase& c) { return c.fn != X86 || c.L < (1ull << 31); }
+
+struct HugeArea
+{
+    unsigned char* map = nullptr;    // [PG inaccessible][data_len readable+writable][PG inaccessible]
+    std::size_t map_len = 0, data_len = 0, PG = 0;
+    unsigned char* data = nullptr;
+    unsigned char* refmap = nullptr; // private copy for the reference
+    std::size_t ref_len = 0;
+    bool ok = false;
+    std::string why;
+};
+static HugeArea huge_map(uint64_t lmax)
+{
+    HugeArea a;
+    a.PG = std::size_t(sysconf(_SC_PAGESIZE));
+    a.data_len = ((std::size_t(lmax) + 64 + 16 + a.PG - 1) / a.PG + 1) * a.PG;
+    a.map_len = a.data_len + 2 * a.PG;
+    a.ref_len = ((std::size_t(lmax) + a.PG - 1) / a.PG + 1) * a.PG;
+    void* m = mmap(nullptr, a.map_len, PROT_NONE, MAP_PRIVATE | MAP_ANONYMOUS | MAP_NORESERVE, -1, 0);
+    if (m == MAP_FAILED) { a.why = std::string("mmap of ") + num((long long)a.map_len) + " bytes failed: " + std::strerror(errno); return a; }
+    a.map = static_cast<unsigned char*>(m);
+    a.data = a.map + a.PG;
+    if (mprotect(a.data, a.data_len, PROT_READ | PROT_WRITE) != 0)
+    {
+        a.why = std::string("mprotect of ") + num((long long)a.data_len) + " bytes failed: " + std::strerror(errno);
+        munmap(a.map, a.map_len);
+        a.map = nullptr;
+        return a;
+    }
+    void* r = mmap(nullptr, a.ref_len, PROT_READ | PROT_WRITE, MAP_PRIVATE | MAP_ANONYMOUS | MAP_NORESERVE, -1, 0);
+    if (r == MAP_FAILED)
+    {
+        a.why = std::string("mmap of ") + num((long long)a.ref_len) + " bytes (reference copy) failed: " + std::strerror(errno);
+        munmap(a.map, a.map_len);
+        a.map = nullptr;
+        return a;
+    }
+    a.refmap = static_cast<unsigned char*>(r);
+    // untouched pages must stay the shared 4 KiB zero page whatever the transparent-huge-page policy of the machine is
+    madvise(a.data, a.data_len, MADV_NOHUGEPAGE);
+    madvise(a.refmap, a.ref_len, MADV_NOHUGEPAGE);
+    a.ok = true;
+    return a;
+}
+static void huge_unmap(HugeArea& a)
+{
+    if (a.map) munmap(a.map, a.map_len);
+    if (a.refmap) munmap(a.refmap, a.ref_len);
+    a.map = a.refmap = nullptr;
+}
+static unsigned char* huge_key(const HugeArea& a, const HCase& c) { return c.pl < 0 ? a.data + a.data_len - c.L : a.data + c.pl; }
+static void huge_place(const HugeArea& a, const HCase& c, bool on)
+{
+    unsigned char* key = huge_key(a, c);
+    const int f = on ? 0xff : 0x00;
+    if (c.pl < 0) std::memset(key - 64, f, 64);
+    else { std::memset(a.data, f, std::size_t(c.pl)); std::memset(key + c.L, f, 64); }
+    huge_write(key, c.L, on);
+}
+
+struct HRef { uint64_t L, seed; bool have32; uint64_t r64, r32; };
+
+// cases must be grouped by (L, pl); returns the number of cases that were executed or attributed
+static void run_huge(const HugeArea& a, const std::vector<HCase>& cases_in, bool verbose)
+{
+    std::vector<HCase> cases = cases_in;
+    // ---- references (parent, private mapping)
+    std::vector<HRef> refs;
+    auto find_ref = [&](uint64_t L, uint64_t seed) -> const HRef* {
+        for (const HRef& r : refs) if (r.L == L && r.seed == seed) return &r;
+        return nullptr;
+    };
+    long long ref_evals = 0;
+    for (std::size_t i = 0; i < cases.size(); ++i)
+    {
+        const HCase& c = cases[i];
+        if (find_ref(c.L, c.seed)) continue;
+        if (out_of_time())
+        {
+            vf::cap("huge part stopped by its deadline before the reference values of length " + hlen_text(c.L, c.k) + " were computed; that length and the following ones were not evaluated");
+            cases.resize(i);
+            break;
+        }
+        // all cases of one length are adjacent: write the content once per length
+        if (i == 0 || cases[i - 1].L != c.L)
+        {
+            if (i > 0) huge_write(a.refmap, cases[i - 1].L, false);
+            huge_write(a.refmap, c.L, true);
+        }
+        HRef r;
+        r.L = c.L;
+        r.seed = c.seed;
+        r.r64 = r.r32 = 0;
+        r.have32 = c.L < (1ull << 31);
+        bool need64 = false, need32 = false;
+        for (const HCase& d : cases)
+            if (d.L == c.L && d.seed == c.seed) { if (d.fn == X86) need32 = r.have32; else need64 = true; }
+        if (need64) { r.r64 = c14ref::murmur2_64a(a.refmap, std::size_t(c.L), c.seed); ++ref_evals; }
+        if (need32) { r.r32 = c14ref::murmur2_32(a.refmap, std::size_t(c.L), uint32_t(c.seed)); ++ref_evals; }
+        refs.push_back(r);
+    }
+    if (!cases.empty()) huge_write(a.refmap, cases.back().L, false);
+    vf::stat("huge_reference_evaluations", ref_evals);
+
+    // ---- implementation (forked child)
+    std::size_t shbytes = sizeof(HShared) + cases.size() * sizeof(uint64_t);
+    HShared* sh = static_cast<HShared*>(mmap(nullptr, shbytes, PROT_READ | PROT_WRITE, MAP_SHARED | MAP_ANONYMOUS, -1, 0));
+    if (sh == MAP_FAILED) { std::fprintf(stderr, "mmap failed\n"); std::exit(2); }
+    std::vector<char> state(cases.size(), 0);   // 0 not executed, 1 returned a value, 2 killed
+    std::vector<std::string> death(cases.size());
+    std::size_t start = 0;
+    bool stopped = false;
+    while (start < cases.size() && !stopped)
+    {
+        std::fflush(stdout);
+        std::fflush(stderr);
+        sh->idx = -1;
+        sh->stopped = 0;
+        pid_t pid = fork();
+        if (pid < 0) { std::fprintf(stderr, "fork failed\n"); std::exit(2); }
+        if (pid == 0)
+        {
+            int sigs[] = {SIGSEGV, SIGBUS};
+            for (int s : sigs) std::signal(s, SIG_DFL);
+            bool placed = false;
+            std::size_t i = start;
+            for (; i < cases.size(); ++i)
+            {
+                const HCase& c = cases[i];
+                if (out_of_time()) { sh->stopped = 1; break; }
+                if (!placed || cases[i - 1].L != c.L || cases[i - 1].pl != c.pl)
+                {
+                    if (placed) huge_place(a, cases[i - 1], false);
+                    huge_place(a, c, true);
+                    placed = true;
+                }
+                sh->idx = long(i);
+                sh->res[i] = call(c.fn, huge_key(a, c), std::size_t(c.L), c.seed);
+            }
+            sh->idx = long(i);
+            _exit(0);
+        }
+        int st = 0;
+        if (waitpid(pid, &st, 0) != pid) { std::fprintf(stderr, "waitpid failed\n"); std::exit(2); }
+        long reached = sh->idx;
+        if (WIFEXITED(st) && WEXITSTATUS(st) == 0 && reached >= long(start) && reached <= long(cases.size()))
+        {
+            for (std::size_t i = start; i < std::size_t(reached); ++i) state[i] = 1;
+            if (sh->stopped) stopped = true;
+            start = std::size_t(reached);
+            if (!stopped && start != cases.size()) { std::fprintf(stderr, "huge child ended early (reached %ld)\n", reached); std::exit(2); }
+        }
+        else if ((WIFSIGNALED(st) || (WIFEXITED(st) && WEXITSTATUS(st) != 0)) && reached >= long(start) && reached < long(cases.size()))
+        {
+            for (std::size_t i = start; i < std::size_t(reached); ++i) state[i] = 1;
+            state[std::size_t(reached)] = 2;
+            death[std::size_t(reached)] = WIFSIGNALED(st) ? "the call was killed by signal " + num(WTERMSIG(st)) : "the call ended the process with status " + num(WEXITSTATUS(st));
+            start = std::size_t(reached) + 1;
+        }
+        else { std::fprintf(stderr, "huge child ended unexpectedly (status %d, reached %ld)\n", st, reached); std::exit(2); }
+    }
+    if (stopped)
+        vf::cap("huge part stopped by its deadline at case " + num((long long)start) + " of " + num((long long)cases.size()) + " (" + FN_NAME[cases[start].fn] + ", length " +
+                hlen_text(cases[start].L, cases[start].k) + ", placement " + hpl_name(cases[start].pl) + ")");
+
+    // ---- judge
+    for (std::size_t i = 0; i < cases.size(); ++i)
+    {
+        const HCase& c = cases[i];
+        if (state[i] == 0) continue;
+        ++g_evals;
+        vf::stat("huge_cases", 1);
+        const std::string head = std::string(FN_NAME[c.fn]) + "(key, " + hlen_text(c.L, c.k) + ", seed " + h64(c.seed) + ") with " + HUGE_CONTENT + ", " + hwhere(c);
+        const std::string sigbase = std::string("C14/") + FN_NAME[c.fn] + "/len~2^" + num(c.k) + "/";
+        if (state[i] == 2)
+        {
+            vf::violation(sigbase + "guard-page-fault", head + ": " + death[i] + " - it accessed memory outside [key, key+" + num((long long)c.L) + ")", hreplay(c));
+            continue;
+        }
+        const uint64_t got = sh->res[i];
+        // canonical placement of the same (function, length, seed): the first executed case of the group
+        bool canon_known = false;
+        uint64_t canon = 0;
+        std::size_t ci = 0;
+        for (std::size_t j = 0; j < i; ++j)
+            if (state[j] == 1 && cases[j].fn == c.fn && cases[j].L == c.L && cases[j].seed == c.seed) { canon_known = true; canon = sh->res[j]; ci = j; break; }
+        const HRef* r = find_ref(c.L, c.seed);
+        if (verbose)
+            std::printf("%s placement %s: returned %s, reference %s%s\n", FN_NAME[c.fn], hpl_name(c.pl).c_str(), h64(got).c_str(),
+                        huge_has_ref(c) && r ? h64(c.fn == X86 ? r->r32 : r->r64).c_str() : "(none: MurmurHash2 has no value for lengths >= 2^31)",
+                        canon_known ? (", first placement returned " + h64(canon)).c_str() : "");
+        if (huge_has_ref(c) && r)
+        {
+            const uint64_t exp = c.fn == X86 ? r->r32 : r->r64;
+            if (got != exp)
+            {
+                const bool placement = canon_known && canon == exp;
+                std::string msg = head + ": returned " + h64(got) + ", reference " + REF_NAME[c.fn] + " gives " + h64(exp);
+                if (canon_known) msg += "; the same key in placement " + hpl_name(cases[ci].pl) + " returned " + h64(canon);
+                vf::violation(sigbase + (placement ? "depends-on-placement" : "wrong-value"), msg, hreplay(c));
+            }
+            if (!canon_known) ++g_distinct;
+        }
+        else if (canon_known && got != canon)
+        {
+            vf::violation(sigbase + "depends-on-placement",
+                          head + ": returned " + h64(got) + " but the same key (equal bytes, length and seed) in placement " + hpl_name(cases[ci].pl) + " returned " + h64(canon) +
+                              " (reference MurmurHash2 takes an int length, so only purity is judged for lengths >= 2^31)",
+                          hreplay(c));
+        }
+    }
+    munmap(sh, shbytes);
+}
+
+static std::vector<uint64_t> huge_seeds(int fn, bool two)
+{
+    std::vector<uint64_t> s(1, 0xc70f6907ull);
+    if (two) s.push_back(fn == X86 ? 0xFFFFFFFFull : ~0ull);
+    return s;
+}
+static void huge_cases_for(std::vector<HCase>& cases, uint64_t L, int k, const std::vector<int>& aoffs, bool two_seeds, int only_fn = -1)
+{
+    std::vector<int> pls(1, -1);
+    for (int a : aoffs) pls.push_back(a);
+    for (int pl : pls)
+        for (int fn = 0; fn < NFN; ++fn)
+        {
+            if (only_fn >= 0 && fn != only_fn) continue;
+            for (uint64_t s : huge_seeds(fn, two_seeds)) cases.push_back(HCase{fn, L, k, pl, s});
+        }
+}
+static int huge_k_of(uint64_t L)
+{
+    int best = 31;
+    uint64_t bd = ~0ull;
+    for (int k = 20; k <= 33; ++k)
+    {
+        uint64_t p = 1ull << k, d = L > p ? L - p : p - L;
+        if (d < bd) { bd = d; best = k; }
+    }
+    return best;
+}
+
+// kd: explicit list of (k, d) pairs; if empty the product ks x ds
+static void part_huge(const std::vector<std::pair<int, int> >& kd_in, const std::vector<int>& ks, const std::vector<int>& ds, const std::vector<int>& aoffs, bool two_seeds, int shard, int nshard)
+{
+    std::vector<std::pair<int, int> > kd = kd_in;
+    if (kd.empty())
+        for (int k : ks)
+            for (int d : ds) kd.push_back(std::make_pair(k, d));
+    std::vector<std::pair<uint64_t, int> > lens;
+    for (const auto& x : kd) lens.push_back(std::make_pair(uint64_t((long long)(1ull << x.first) + x.second), x.first));
+    std::sort(lens.begin(), lens.end());
+    lens.erase(std::unique(lens.begin(), lens.end()), lens.end());
+    std::vector<HCase> cases;
+    uint64_t lmax = 0;
+    long long nl = 0;
+    for (std::size_t i = 0; i < lens.size(); ++i)
+    {
+        if (int(i % std::size_t(nshard)) != shard) continue;
+        huge_cases_for(cases, lens[i].first, lens[i].second, aoffs, two_seeds);
+        lmax = std::max(lmax, lens[i].first);
+        ++nl;
+    }
+    if (cases.empty()) return;
+    HugeArea a = huge_map(lmax);
+    if (!a.ok)
+    {
+        vf::cap("huge part shard " + num(shard) + "/" + num(nshard) + ": the sparse mapping for keys of up to " + num((long long)lmax) + " bytes cannot be created on this machine (" + a.why +
+                "); lengths around 2^31 / 2^32 were NOT evaluated");
+        return;
+    }
+    const long long before = g_evals;
+    run_huge(a, cases, false);
+    huge_unmap(a);
+    vf::stat("huge_lengths", nl);
+    if (g_evals - before == (long long)cases.size()) vf::smax("huge_max_length_completed", (long long)lmax);
+    if (shard == 0)
+        vf::sample(std::string("huge key: hash_bytes / murmur2_x64 (") + HUGE_CONTENT + ", length " + hlen_text(cases[0].L, cases[0].k) +
+                   ", seed 0xc70f6907) ending at an inaccessible page and at offsets " + (aoffs.empty() ? std::string("-") : num(aoffs.front()) + ".." + num(aoffs.back())) +
+                   " behind one, in a forked child -> one value == reference MurmurHash64A computed on a private copy", 12);
+}
+
+static void huge_one(int fn, uint64_t seed, const std::string& plname, uint64_t L)
+{
+    int pl = plname == "G" ? -1 : std::atoi(plname.c_str() + 1);
+    if (pl < -1 || pl > 15 || L < 64 || L > (1ull << 34)) { std::fprintf(stderr, "bad --huge-one arguments\n"); std::exit(2); }
+    const int k = huge_k_of(L);
+    std::vector<HCase> cases;
+    cases.push_back(HCase{fn, L, k, -1, seed});
+    if (pl >= 0) cases.push_back(HCase{fn, L, k, pl, seed});
+    HugeArea a = huge_map(L);
+    if (!a.ok) { vf::cap("the sparse mapping for a key of " + num((long long)L) + " bytes cannot be created (" + a.why + ")"); return; }
+    run_huge(a, cases, true);
+    huge_unmap(a);
 }
 
 // ------------------------------------------------------------------------------------------------ part: fslong (long strlen-layout fixed strings at odd addresses)
@@ -1030,6 +1408,9 @@ int main(int argc, char** argv)
     std::size_t lmin = 0, lmax = 39, len = 3, lmain = 0;
     bool pairs = false, wide = false, two_seeds = false;
     int shard = 0, nshard = 1, naligns = 16;
+    bool band = false;
+    std::vector<int> ks = {31, 32}, ds = {0, 13}, aoffs = {1};
+    std::vector<std::pair<int, int> > hlens;
     Dims d;
     d.placements = {'R', 'M'};
     d.aligns = {0, 1, 2, 3, 4, 5, 6, 7};
@@ -1066,6 +1447,31 @@ int main(int argc, char** argv)
         else if (a == "--fsw-one") { fsw_one(argv[i + 1], std::size_t(std::atoi(argv[i + 2])), true); part = ""; i += 2; }
         else if (a == "--fs-long-one") { fs_long_len(std::size_t(std::atoi(argv[++i])), true); part = ""; }
         else if (a == "--naligns") naligns = std::atoi(argv[++i]);
+        else if (a == "--band") band = std::atoi(argv[++i]) != 0;
+        else if (a == "--ks") ks = parse_list(argv[++i]);
+        else if (a == "--ds") ds = parse_list(argv[++i]);
+        else if (a == "--aoffs") aoffs = parse_list(argv[++i]);
+        else if (a == "--hlens")   // k:d,k:d,.. = the lengths 2^k + d
+        {
+            std::string l = argv[++i];
+            std::size_t p = 0;
+            while (p < l.size())
+            {
+                std::size_t q = l.find(',', p);
+                if (q == std::string::npos) q = l.size();
+                std::string e = l.substr(p, q - p);
+                std::size_t c = e.find(':');
+                if (c == std::string::npos) { std::fprintf(stderr, "bad --hlens entry %s\n", e.c_str()); return 2; }
+                hlens.push_back(std::make_pair(std::atoi(e.substr(0, c).c_str()), std::atoi(e.substr(c + 1).c_str())));
+                p = q + 1;
+            }
+        }
+        else if (a == "--huge-one")
+        {
+            huge_one(fn_by_name(argv[i + 1]), std::strtoull(argv[i + 2], nullptr, 0), argv[i + 3], std::strtoull(argv[i + 4], nullptr, 0));
+            part = "";
+            i += 4;
+        }
         else if (a == "--lmain") lmain = std::size_t(std::atoi(argv[++i]));
         else if (a == "--long-one")
         {
@@ -1075,12 +1481,20 @@ int main(int argc, char** argv)
         }
         else { std::fprintf(stderr, "unknown argument %s\n", a.c_str()); return 2; }
     }
-    if ((part != "long" && lmax > 120) || lmax > 100000 || naligns < 1 || naligns > 16 || (part == "full" && (len < 1 || len > 4))) { std::fprintf(stderr, "bounds out of range\n"); return 2; }
+    if ((part != "long" && lmax > 120) || lmax > (band ? (1u << 26) : 100000u) || naligns < 1 || naligns > 16 || (part == "full" && (len < 1 || len > 4))) { std::fprintf(stderr, "bounds out of range\n"); return 2; }
     if (part == "main") part_main(lmin, lmax, pairs, wide, shard, nshard, d);
     else if (part == "full") part_full(len, pairs, two_seeds, shard, nshard, d);
     else if (part == "guard") part_guard(lmax, wide);
     else if (part == "fs") part_fs();
-    else if (part == "long") part_long(lmin, lmax, lmain, naligns, wide, shard, nshard);
+    else if (part == "long") part_long(lmin, lmax, lmain, naligns, wide, shard, nshard, band);
+    else if (part == "huge")
+    {
+        for (int k : ks) if (k < 20 || k > 33) { std::fprintf(stderr, "bounds out of range\n"); return 2; }
+        for (int d : ds) if (d < -64 || d > 64) { std::fprintf(stderr, "bounds out of range\n"); return 2; }
+        for (int o : aoffs) if (o < 0 || o > 15) { std::fprintf(stderr, "bounds out of range\n"); return 2; }
+        for (const auto& x : hlens) if (x.first < 20 || x.first > 33 || x.second < -64 || x.second > 64) { std::fprintf(stderr, "bounds out of range\n"); return 2; }
+        part_huge(hlens, ks, ds, aoffs, two_seeds, shard, nshard);
+    }
     else if (part == "fslong") part_fslong();
     else if (part == "fswide") part_fswide();
     else if (part != "") { std::fprintf(stderr, "unknown part %s\n", part.c_str()); return 2; }
